@@ -13,6 +13,7 @@
 import OtterVerif.Proofs.TableEvict
 import OtterVerif.Gen.CacheWrite
 import OtterVerif.Gen.CacheRead
+import OtterVerif.Proofs.PolicyJust
 
 namespace OtterVerif.Props.C07Evict
 open OtterVerif OtterVerif.Impl.Table OtterVerif.Proofs.TableRefine OtterVerif.Proofs.TableTrace OtterVerif.Proofs.TableEvict
@@ -110,6 +111,38 @@ theorem c07_every_history_with_removals (c : Cfg) (hk1 : KindOk c.expiry) (hk2 :
     (hclk : XClockOk is.now ops) (q : Spec.State × List (Out × List Event)) (hq : xsrun c ss ops = some q) :
     (xirun c is ops).2 = q.2 ∧ q.1.m = absT (xirun c is ops).1.t :=
   xhistory_sim c hk1 hk2 hr ops is ss hm hnow hok hclk q hq
+
+
+/-! ### the policy's guard is the spec's size pressure (glue between Proofs.PolicyJust and the table refinement)
+
+Proofs.PolicyJust: every node Impl.Policy hands to the eviction callback leaves a policy state with
+`maximum < weightedSize` (`Just.evict`), and `evictNodes_nonzero`: it weighs something.  IF the policy's running total is the
+table's total weight and its maximum the cache's (the agreement the C05 theorems establish on the policy side — weightedSize =
+Σ weights of linked nodes, linked ⇔ alive at quiescence — and the UNIT-policy / SEQ engines check on the code), then the
+spec accepts the removal of that (live) node.  The agreement itself is a hypothesis here, not a theorem: DESIGN 13.10. -/
+theorem c07_policy_guard_is_spec_pressure (p : Impl.Policy.Policy) (c : Cfg) (s : Spec.State) (k : Nat) (e : Entry) (mx : Nat)
+    (hmax : s.maximum = some mx) (hpm : p.maximum.toNat = mx) (hws : p.weightedSize.toNat = s.totalWeight)
+    (hb : c.bounded = true) (hp : s.phys k = some e) (hx : s.now < e.exp) (hw : e.weight ≠ 0)
+    (hg : BitVec.ult p.maximum p.weightedSize = true) : (specEvict c s k true).isSome := by
+  rw [live_evict_accepted_iff c s k e hp hx]
+  refine ⟨mx, hmax, hb, hw, Or.inl ?_⟩
+  have : p.maximum.toNat < p.weightedSize.toNat := by simpa [BitVec.ult] using hg
+  omega
+
+/-- and conversely: within the maximum (policy guard false, entry not oversized) the spec rejects any Overflow report -/
+theorem c07_no_pressure_no_overflow (p : Impl.Policy.Policy) (c : Cfg) (s : Spec.State) (k : Nat) (e : Entry) (mx : Nat)
+    (hmax : s.maximum = some mx) (hpm : p.maximum.toNat = mx) (hws : p.weightedSize.toNat = s.totalWeight)
+    (hp : s.phys k = some e) (hx : s.now < e.exp) (hle : e.weight ≤ mx)
+    (hg : BitVec.ult p.maximum p.weightedSize = false) : (specEvict c s k true).isSome = false := by
+  cases h : (specEvict c s k true).isSome with
+  | false => rfl
+  | true =>
+    rw [live_evict_accepted_iff c s k e hp hx] at h
+    obtain ⟨mx', hm', _, _, hor⟩ := h
+    rw [hmax] at hm'
+    have hmm : mx = mx' := Option.some.inj hm'
+    have : ¬ p.maximum.toNat < p.weightedSize.toNat := by simpa [BitVec.ult] using hg
+    rcases hor with h1 | h2 <;> omega
 
 /-! ### non-vacuity: a concrete history with a write, a clock jump past the deadline and the sweep's removal -/
 
